@@ -14,6 +14,7 @@ TrFree == IsEvent("hfree") /\ Consume /\ Free(Ev.h)
 TrJoinCall == IsEvent("joincall") /\ Consume /\ ~freed[Ev.h] /\ refs[Ev.h] > 0 /\ UNCHANGED uvars
 TrJoin == IsEvent("joinret") /\ Consume /\ JoinRet(Ev.h, Ev.code, Ev.seen)
 TrKeyNew == IsEvent("keynew") /\ Consume /\ KeyNew(Ev.k, Ev.f)
+TrKeyFree == IsEvent("keyfree") /\ Consume /\ KeyFree(Ev.k)
 TrTSet == IsEvent("tset") /\ Consume /\ TSet(Ev.k, Ev.t, Ev.v)
 TrTReplB == IsEvent("trepl_b") /\ Consume /\ TReplBegin(Ev.k, Ev.t, Ev.v)
 (* the replaced value must have been destroyed inside the call *)
@@ -27,6 +28,6 @@ TrEpoch == /\ IsEvent("Epoch") /\ Consume /\ Quiescent
            /\ code' = [h \in Handles |-> 0] /\ written' = [h \in Handles |-> 0]
            /\ keyfn' = [k \in Keys |-> -1] /\ tls' = [k \in Keys |-> [t \in TIDs |-> 0]] /\ due' = {}
 TNext == TrCreate \/ TrStart \/ TrWrite \/ TrExit \/ DoOwnRefDrop \/ TrRef \/ TrUnref \/ TrFree \/ TrJoinCall \/ TrJoin
-         \/ TrKeyNew \/ TrTSet \/ TrTReplB \/ TrTReplE \/ TrTGet \/ TrDestroy \/ TrEpoch
+         \/ TrKeyNew \/ TrKeyFree \/ TrTSet \/ TrTReplB \/ TrTReplE \/ TrTGet \/ TrDestroy \/ TrEpoch
 TSpec == TInit /\ [][TNext]_tv
 ====
